@@ -232,6 +232,36 @@ theorem iterMin_inv (W : Writes I) {child : Gen} (C : ChildOK Pos I child) (min 
       simp only [Option.some.injEq, Prod.mk.injEq] at hq
       rw [← hq.2]; exact hp
 
+theorem iterMinZ_inv (W : Writes I) {child : Gen} (C : ChildOK Pos I child) (min : Nat) :
+    ∀ fuel count pos st, Pos pos → I st →
+      I (iterMinZ child min fuel count pos st).2 ∧
+      ∀ c q, (iterMinZ child min fuel count pos st).1 = some (c, q) → Pos q := by
+  intro fuel
+  induction fuel with
+  | zero =>
+    intro count pos st _ h
+    exact ⟨W.div _ h, fun c q hq => by simp [iterMinZ] at hq⟩
+  | succ f ih =>
+    intro count pos st hp h
+    unfold iterMinZ
+    split
+    · have hf := C.fst pos st hp h
+      split
+      · rename_i n x st' heq
+        rw [← first1_snd heq] at hf
+        have hn : Pos n := first1_all (C.pos pos st hp) heq
+        split
+        · refine ⟨hf, fun c q hq => ?_⟩
+          simp only [Option.some.injEq, Prod.mk.injEq] at hq
+          rw [← hq.2]; exact hp
+        · exact ih _ _ _ hn hf
+      · rename_i st' heq
+        rw [← first1_snd heq] at hf
+        exact ⟨hf, fun c q hq => by simp at hq⟩
+    · refine ⟨h, fun c q hq => ?_⟩
+      simp only [Option.some.injEq, Prod.mk.injEq] at hq
+      rw [← hq.2]; exact hp
+
 theorem rfixedMore_inv (W : Writes I) {child : Gen} (C : ChildOK Pos I child) (max position : Nat) :
     ∀ fuel count pos st, Pos pos → I st → (rfixedMore child max position fuel count pos st).Inv I := by
   intro fuel
@@ -290,7 +320,7 @@ theorem repReluctantGen_inv (W : Writes I) {child : Gen} (C : ChildOK Pos I chil
     (min max : Nat) : GenInv Pos I (repReluctantGen ctx child min max) := by
   intro p st hp h
   unfold repReluctantGen
-  have hi := iterMin_inv W C min (loopFuel ctx min) 0 p st hp h
+  have hi := iterMinZ_inv W C min (loopFuel ctx min) 0 p st hp h
   split
   · rename_i st' heq
     rw [heq] at hi
@@ -1218,7 +1248,7 @@ theorem repReluctantGen_nd {child : Gen} (C : ChildND L child) (ctx : Ctx) (hL :
     (min max : Nat) : GenND L (repReluctantGen ctx child min max) := by
   intro p st hp
   unfold repReluctantGen
-  have hi := iterMin_inv writes_true C.childOK min (loopFuel ctx min) 0 p st hp True.intro
+  have hi := iterMinZ_inv writes_true C.childOK min (loopFuel ctx min) 0 p st hp True.intro
   split
   · exact .nil _
   · rename_i count pos st' heq
